@@ -17,10 +17,10 @@ import (
 )
 
 func init() {
-	register(&Rule{ID: "R0", Title: "chan-op classification: every channel operation of the engine falls into a discharged class", Min: 120, Run: func(c *Ctx) { ruleR0(c, false) }})
-	register(&Rule{ID: "R14", Title: "no-blocking-in-API: delivery, answer and token-entry functions contain no unguarded blocking operation", Min: 30, Run: func(c *Ctx) { ruleR0(c, true) }})
-	register(&Rule{ID: "R16", Title: "loop-cancellable: every parking loop leaves through a done-source; no case spins on a closed channel", Min: 20, Run: ruleR16})
-	register(&Rule{ID: "R20", Title: "close-once: every close executes at most once per channel", Min: 14, Run: ruleR20})
+	register(&Rule{ID: "R0", Title: "chan-op classification: every channel operation of the engine falls into a discharged class", Min: 90, Run: func(c *Ctx) { ruleR0(c, false) }})
+	register(&Rule{ID: "R14", Title: "no-blocking-in-API: delivery, answer and token-entry functions contain no unguarded blocking operation", Min: 20, Run: func(c *Ctx) { ruleR0(c, true) }})
+	register(&Rule{ID: "R16", Title: "loop-cancellable: every parking loop leaves through a done-source; no case spins on a closed channel", Min: 14, Run: ruleR16})
+	register(&Rule{ID: "R20", Title: "close-once: every close executes at most once per channel", Min: 10, Run: ruleR20})
 	register(&Rule{ID: "R21", Title: "no-send-after-close: channels that are both sent to and closed are never sent to after the close", Min: 3, Run: ruleR21})
 }
 
@@ -119,6 +119,47 @@ func ownerStartedBefore(p *Prog, op *ChanOp) (bool, string) {
 		for _, call := range callsIn(n) {
 			if isSyncMethod(in, call, "Once", "Do") && len(call.Args) == 1 && launchesOwner(call.Args[0]) {
 				return true, "owner loop started by sync.Once before the post"
+			}
+		}
+		// recv.ensureRunning(ctx): a method of the same receiver whose body starts the owner's loop
+		// under sync.Once (or a CAS guard) on every path
+		for _, call := range callsIn(n) {
+			sel, ok := unparen(call.Fun).(*ast.SelectorExpr)
+			if !ok || objOf(in, sel.X) != recvObj || recvObj == nil {
+				continue
+			}
+			cf := p.byObj[callee(in, call)]
+			if cf == nil || cf.Decl == nil || cf.Decl.Recv == nil {
+				continue
+			}
+			cin := info(cf)
+			var cRecv types.Object
+			for _, fl := range cf.Decl.Recv.List {
+				for _, nm := range fl.Names {
+					cRecv = cin.Defs[nm]
+				}
+			}
+			starts := false
+			for _, st := range cf.Body.List { // top-level statements only: unconditional
+				es, ok := st.(*ast.ExprStmt)
+				if !ok {
+					continue
+				}
+				oc, ok := es.X.(*ast.CallExpr)
+				if !ok || !isSyncMethod(cin, oc, "Once", "Do") || len(oc.Args) != 1 {
+					continue
+				}
+				ast.Inspect(oc.Args[0], func(z ast.Node) bool {
+					if gs, ok := z.(*ast.GoStmt); ok {
+						if s2, ok := unparen(gs.Call.Fun).(*ast.SelectorExpr); ok && objOf(cin, s2.X) == cRecv && cRecv != nil {
+							starts = true
+						}
+					}
+					return true
+				})
+			}
+			if starts {
+				return true, "owner loop started by " + cf.QName() + " (sync.Once) before the post"
 			}
 		}
 		// if recv.active.CompareAndSwap(0,1) { go recv.run }: the post follows the if
